@@ -40,12 +40,13 @@ VC(cls, items) == [k |-> "c", cls |-> cls, items |-> items]
 Entry(key, val) == [key |-> key, val |-> val]     \* one entry of a map-class container
 IsC(v) == v.k = "c"
 \* container classes: the builtins, OrderedDict, and subclasses used to harden the universes --
-\*   flist / fdict: list / dict subclasses whose instances are falsy whatever they hold,
+\*   flist / fdict / fset: list / dict / set subclasses whose instances are falsy whatever they hold,
 \*   ntuple: a tuple subclass whose constructor takes the items as separate arguments
-Base(cls) == CASE cls \in {"flist"} -> "list" [] cls \in {"odict", "fdict"} -> "dict" [] cls = "ntuple" -> "tuple" [] OTHER -> cls
+Base(cls) == CASE cls \in {"flist"} -> "list" [] cls \in {"odict", "fdict"} -> "dict" [] cls = "ntuple" -> "tuple"
+               [] cls = "fset" -> "set" [] OTHER -> cls
 IsMapCls(cls) == Base(cls) = "dict" \/ cls = "obj"
 Family(cls) == IF Base(cls) \in {"set", "frozenset"} THEN "set" ELSE Base(cls)
-FalsyClasses == {"flist", "fdict"}
+FalsyClasses == {"flist", "fdict", "fset"}
 \* two hostile scalars: [k: "any"] is == to everything (and != to nothing); [k: "grumpy"] raises
 \* TypeError when compared with anything but another grumpy (it only occurs as a whole target)
 VAny == [k |-> "any"]
@@ -157,7 +158,7 @@ PyIsInstance(v, tn) ==
 PyType(v) ==
   IF v.k = "none" THEN "NoneType"
   ELSE IF IsC(v) THEN (IF v.cls = "odict" THEN "OrderedDict" ELSE IF v.cls = "flist" THEN "Falsylist"
-                       ELSE IF v.cls = "fdict" THEN "Falsydict" ELSE IF v.cls = "ntuple" THEN "NTuple" ELSE v.cls)
+                       ELSE IF v.cls = "fdict" THEN "Falsydict" ELSE IF v.cls = "fset" THEN "Falsyset" ELSE IF v.cls = "ntuple" THEN "NTuple" ELSE v.cls)
   ELSE v.k
 
 \* a step  [n:]  (slice with a non-negative start only)
